@@ -44,3 +44,41 @@ def selftest_rope_struct(_p=None):
         if got != want:
             return {'ok': False, 'detail': f'multi-part Rope slice [{a}:{b}]: {got!r} != {want!r}'}
     return {'ok': True, 'cases': cases}
+
+
+def selftest_format_table(_p=None):
+    """The struct formats of the real RepresentationCode table are the standard's (this also pins FSINGL/FDOUBL,
+    whose values are outside the solver's reach) and the float packers agree with IEEE-754 big-endian on boundaries."""
+    import math
+    from dliswriter.utils.internal.internal_enums import RepresentationCode as RepC
+    want = {'FSINGL': '>f', 'FDOUBL': '>d', 'SSHORT': '>b', 'SNORM': '>h', 'SLONG': '>i', 'USHORT': '>B', 'UNORM': '>H',
+            'ULONG': '>I', 'STATUS': '>B'}
+    cases = 0
+    for name, fmt in want.items():
+        got = RepC[name].converter.format
+        cases += 1
+        if got != fmt:
+            return {'ok': False, 'detail': f'RepresentationCode.{name} packs with {got!r}, the standard needs {fmt!r}'}
+    codes = {'FSINGL': 2, 'FDOUBL': 7, 'SSHORT': 12, 'SNORM': 13, 'SLONG': 14, 'USHORT': 15, 'UNORM': 16, 'ULONG': 17,
+             'UVARI': 18, 'IDENT': 19, 'ASCII': 20, 'DTIME': 21, 'OBNAME': 23, 'OBJREF': 24, 'STATUS': 26}
+    for name, v in codes.items():
+        cases += 1
+        if RepC[name].value != v:
+            return {'ok': False, 'detail': f'RepresentationCode.{name} = {RepC[name].value}, the standard says {v}'}
+    for x in (0.0, -0.0, 1.5, float('inf'), float('-inf'), 1e-45, 3.4028234663852886e38, 5e-324, 1.7976931348623157e308):
+        for name, fmt in (('FSINGL', '>f'), ('FDOUBL', '>d')):
+            try:
+                a = bytes(RepC[name].convert(x))
+            except (OverflowError, struct.error):
+                a = None
+            try:
+                b = struct.pack(fmt, x)
+            except (OverflowError, struct.error):
+                b = None
+            cases += 1
+            if a != b:
+                return {'ok': False, 'detail': f'{name}({x})'}
+    nan = bytes(RepC.FDOUBL.convert(float('nan')))
+    if not math.isnan(struct.unpack('>d', nan)[0]):
+        return {'ok': False, 'detail': 'NaN'}
+    return {'ok': True, 'cases': cases}
